@@ -83,7 +83,8 @@ pub fn gen_block(rng: &mut Rng, wf: bool) -> CanonicalBlock {
         5 | 6 => (10, CanonicalData::HopCount(*rng.pick(&[0u8, 1, 2, 31, 32, 254, 255]), match rng.below(4) { 0 => rng.next() as u8, 1 => 255, _ => rng.below(40) as u8 })),
         7 | 8 => (6, CanonicalData::PreviousNode(if wf { gen_eid_wf(rng) } else { gen_eid_any(rng) })),
         _ => {
-            let t = match rng.below(5) { 0 => rng.u64b(), 1 => 11, 2 => 192, _ => 2 + rng.below(250) };
+            // unassigned / opaque types: neighbours of the assigned codes 1, 6, 7, 10 (2..5, 8, 9, 11, 12) well represented
+            let t = match rng.below(6) { 0 => rng.u64b(), 1 => 11, 2 => 192, 3 => *rng.pick(&[2u64, 3, 4, 5, 8, 9, 11, 12, 13, 255, 256]), _ => 2 + rng.below(250) };
             let t = if [1u64, 6, 7, 10].contains(&t) { 11 } else { t };
             (t, CanonicalData::Unknown(gen_payload(rng)))
         }
@@ -148,6 +149,12 @@ pub fn gen_valid_bundle(rng: &mut Rng) -> Bundle {
     for b in [0x4u64, 0x20, 0x40, 0x4000, 0x10000, 0x20000, 0x40000] { if rng.chance(1, 4) { f |= b; } }
     if rng.chance(1, 8) { f = 0x2 | (f & 0x64); }
     if rng.chance(1, 8) { f = (f & !0x4) | 1; }
+    // bits no flag is assigned to (validation does not care; the reserved composite 0xE218 only counts
+    // when all of its bits are set, which is avoided by never setting 0x0008 here)
+    if rng.chance(1, 4) {
+        const UNASSIGNED: [u64; 14] = [0x10, 0x80, 0x100, 0x200, 0x400, 0x800, 0x1000, 0x2000, 0x8000, 0x80000, 1 << 20, 1 << 21, 1 << 40, 1 << 63];
+        for _ in 0..1 + rng.below(3) { f |= *rng.pick(&UNASSIGNED); }
+    }
     p.bundle_control_flags = f;
     p.destination = loop { let e = gen_eid_wf(rng); if e != EndpointID::none() { break e; } };
     p.source = gen_eid_wf(rng);
@@ -163,7 +170,10 @@ pub fn gen_valid_bundle(rng: &mut Rng) -> Bundle {
     if t == 0 || rng.chance(1, 3) { cs.push(new_canonical_block(7, num, bf(rng), CanonicalData::BundleAge(rng.u64b()))); num += 1 + rng.below(3); }
     if rng.chance(1, 2) { cs.push(new_canonical_block(10, num, bf(rng), CanonicalData::HopCount(*rng.pick(&[1u8, 2, 32, 255]), rng.below(40) as u8))); num += 1 + rng.below(3); }
     if rng.chance(1, 3) { cs.push(new_canonical_block(6, num, bf(rng), CanonicalData::PreviousNode(gen_eid_wf(rng)))); num += 1 + rng.below(3); }
-    for _ in 0..rng.below(3) { cs.push(new_canonical_block(*rng.pick(&[11u64, 192, 200, 4]), num, bf(rng), CanonicalData::Unknown(gen_payload(rng)))); num += 1 + rng.below(3); }
+    // opaque extension blocks; the same type may occur several times (only 6, 7, 10 are at-most-once)
+    let opaque: [u64; 12] = [11, 192, 200, 4, 2, 3, 5, 8, 9, 12, 255, 1 << 40];
+    let rep_t = *rng.pick(&opaque);
+    for _ in 0..rng.below(4) { cs.push(new_canonical_block(if rng.chance(1, 2) { rep_t } else { *rng.pick(&opaque) }, num, bf(rng), CanonicalData::Unknown(gen_payload(rng)))); num += 1 + rng.below(3); }
     cs.push(new_canonical_block(1, 1, bf(rng), CanonicalData::Data(gen_payload(rng))));
     let crc = rng.below(3) as u8;
     let mut b = Bundle::new(p, cs);
